@@ -8,6 +8,7 @@ import (
 	"bytes"
 	"errors"
 	"sort"
+	"strings"
 
 	"github.com/NethermindEth/juno/db"
 )
@@ -34,6 +35,7 @@ type DB struct {
 	Commits int
 	Reads   int
 	Dead    bool
+	Paused  bool     // while paused nothing is counted or injected (oracle reads/writes)
 	Fired   []string // which injected faults actually fired
 }
 
@@ -48,6 +50,9 @@ func (d *DB) writeEvent() error {
 	if d.Dead {
 		return ErrDead
 	}
+	if d.Paused {
+		return nil
+	}
 	d.Writes++
 	if d.Plan.FailWriteAt != 0 && d.Writes == d.Plan.FailWriteAt {
 		d.Fired = append(d.Fired, "write_error")
@@ -59,6 +64,9 @@ func (d *DB) writeEvent() error {
 func (d *DB) readEvent() error {
 	if d.Dead {
 		return ErrDead
+	}
+	if d.Paused {
+		return nil
 	}
 	d.Reads++
 	if d.Plan.FailReadAt != 0 && d.Reads == d.Plan.FailReadAt {
@@ -72,6 +80,9 @@ func (d *DB) readEvent() error {
 func (d *DB) commit(apply func() error) error {
 	if d.Dead {
 		return ErrDead
+	}
+	if d.Paused {
+		return apply()
 	}
 	d.Commits++
 	k := d.Commits
@@ -260,6 +271,11 @@ func (b *ibatch) NewIterator(p []byte, ub bool) (db.Iterator, error) {
 // ---------------------------------------------------------------------------------------------
 
 type KV struct{ K, V []byte }
+
+// IsInjected recognises the injected error even when the code under test re-wrapped it with %v.
+func IsInjected(err error) bool {
+	return err != nil && (errors.Is(err, ErrInjected) || strings.Contains(err.Error(), ErrInjected.Error()))
+}
 
 // Image dumps the whole store in key order.
 func Image(r db.KeyValueReader) ([]KV, error) {
